@@ -6,12 +6,13 @@ CONSTANTS
   IdMax = 4
   UnsolIds = {0, 3}
   MaxExtra = 1
-  Kinds = {"ok", "wrong", "fault"}
+  Kinds = {"ok", "wrong", "fault", "echo"}
   WithRenew = FALSE
   Timed = FALSE
   T = 2
   MaxTime = 0
   EarlyCancel = FALSE
+  MultiChunk = FALSE
   NoTimeouts = FALSE
   Mode = "mc"
   SymBreak = FALSE
@@ -21,6 +22,7 @@ CONSTANTS
   Dev_KeyMask = FALSE
   Dev_NoTypeCheck = TRUE
   Dev_NoPopOnTimeout = FALSE
+  Dev_DropChunksOnTimeout = FALSE
 INIT Init
 NEXT Next
 VIEW view
